@@ -69,22 +69,22 @@ Hat2(w) == << <<R0, RNeg(w)>>, <<w, R0>> >>
 \* [[Rm, cols...], [0, I]] : Rm is d x d, cols a sequence of d-vectors
 Affine(Rm, cols) ==
   LET d == Rows(Rm)  m == Len(cols)
-  IN [i \in 1..(d + m) |-> [j \in 1..(d + m) |->
+  IN RForce([i \in 1..(d + m) |-> [j \in 1..(d + m) |->
         IF i <= d THEN (IF j <= d THEN Rm[i][j] ELSE cols[j - d][i])
-        ELSE (IF i = j THEN R1 ELSE R0)]]
+        ELSE (IF i = j THEN R1 ELSE R0)]])
 \* [[Wm, cols...], [0, 0]]
 AffineAlg(Wm, cols) ==
   LET d == Rows(Wm)  m == Len(cols)
-  IN [i \in 1..(d + m) |-> [j \in 1..(d + m) |->
-        IF i <= d THEN (IF j <= d THEN Wm[i][j] ELSE cols[j - d][i]) ELSE R0]]
+  IN RForce([i \in 1..(d + m) |-> [j \in 1..(d + m) |->
+        IF i <= d THEN (IF j <= d THEN Wm[i][j] ELSE cols[j - d][i]) ELSE R0]])
 
 ---------------------------------------------------------------------------
 \* translations: [[I, T], [0, 1]]
 TMatrix(n, c) ==
-  [i \in 1..(n + 1) |-> [j \in 1..(n + 1) |->
-     IF i = j THEN R1 ELSE IF j = n + 1 /\ i <= n THEN c[i] ELSE R0]]
+  RForce([i \in 1..(n + 1) |-> [j \in 1..(n + 1) |->
+     IF i = j THEN R1 ELSE IF j = n + 1 /\ i <= n THEN c[i] ELSE R0]])
 THat(n, a) ==
-  [i \in 1..(n + 1) |-> [j \in 1..(n + 1) |-> IF j = n + 1 /\ i <= n THEN a[i] ELSE R0]]
+  RForce([i \in 1..(n + 1) |-> [j \in 1..(n + 1) |-> IF j = n + 1 /\ i <= n THEN a[i] ELSE R0]])
 
 \* documented Lie-group matrix of the stored coefficients c
 RECURSIVE GMatrix(_, _)
@@ -97,14 +97,14 @@ GMatrix(g, c) ==
     [] g.k = "Gal" ->
          \* [R v p; 0 1 tau; 0 0 1]
          LET Rm == Rot3(VSeg(c, 8, 4))
-         IN [i \in 1..5 |-> [j \in 1..5 |->
+         IN RForce([i \in 1..5 |-> [j \in 1..5 |->
                IF i <= 3 THEN (IF j <= 3 THEN Rm[i][j] ELSE IF j = 4 THEN c[i] ELSE c[3 + i])
                ELSE IF i = 4 THEN (IF j = 4 THEN R1 ELSE IF j = 5 THEN c[7] ELSE R0)
-               ELSE (IF j = 5 THEN R1 ELSE R0)]]
+               ELSE (IF j = 5 THEN R1 ELSE R0)]])
     [] g.k = "SEK3" ->
-         Affine(Rot3(VSeg(c, 3 * g.n + 1, 4)), [p \in 1..g.n |-> VSeg(c, 3 * (p - 1) + 1, 3)])
+         Affine(Rot3(VSeg(c, 3 * g.n + 1, 4)), RForce([p \in 1..g.n |-> VSeg(c, 3 * (p - 1) + 1, 3)]))
     [] g.k = "R" -> TMatrix(g.n, c)
-    [] g.k = "B" -> BlockDiag([i \in 1..Len(g.parts) |-> GMatrix(g.parts[i], PartCoeffs(g, c, i))])
+    [] g.k = "B" -> BlockDiag(RForce([i \in 1..Len(g.parts) |-> GMatrix(g.parts[i], PartCoeffs(g, c, i))]))
 
 GMat(g, c) == GMatrix(g, c)
 
@@ -119,13 +119,13 @@ GHat(g, a) ==
     [] g.k = "Gal" ->
          \* [W b q; 0 0 s; 0 0 0]  (tangent layout b(3) q(3) s w(3))
          LET W == Hat3(VSeg(a, 8, 3))
-         IN [i \in 1..5 |-> [j \in 1..5 |->
+         IN RForce([i \in 1..5 |-> [j \in 1..5 |->
                IF i <= 3 THEN (IF j <= 3 THEN W[i][j] ELSE IF j = 4 THEN a[i] ELSE a[3 + i])
-               ELSE IF i = 4 /\ j = 5 THEN a[7] ELSE R0]]
+               ELSE IF i = 4 /\ j = 5 THEN a[7] ELSE R0]])
     [] g.k = "SEK3" ->
-         AffineAlg(Hat3(VSeg(a, 3 * g.n + 1, 3)), [p \in 1..g.n |-> VSeg(a, 3 * (p - 1) + 1, 3)])
+         AffineAlg(Hat3(VSeg(a, 3 * g.n + 1, 3)), RForce([p \in 1..g.n |-> VSeg(a, 3 * (p - 1) + 1, 3)]))
     [] g.k = "R" -> THat(g.n, a)
-    [] g.k = "B" -> BlockDiag([i \in 1..Len(g.parts) |-> GHat(g.parts[i], PartTangent(g, a, i))])
+    [] g.k = "B" -> BlockDiag(RForce([i \in 1..Len(g.parts) |-> GHat(g.parts[i], PartTangent(g, a, i))]))
 
 \* vee: read the tangent coefficients off the documented positions
 \* (the rotation generator is read through the antisymmetric part, (A - A^T)/2)
@@ -147,7 +147,7 @@ GVee(g, A) ==
     [] g.k = "Gal" -> <<A[1][4], A[2][4], A[3][4], A[1][5], A[2][5], A[3][5], A[4][5],
                         AS(A, 3, 2), AS(A, 1, 3), AS(A, 2, 1)>>
     [] g.k = "SEK3" -> VeeCols(A, g.n, 1) \o <<AS(A, 3, 2), AS(A, 1, 3), AS(A, 2, 1)>>
-    [] g.k = "R" -> [i \in 1..g.n |-> A[i][g.n + 1]]
+    [] g.k = "R" -> RForce([i \in 1..g.n |-> A[i][g.n + 1]])
     [] g.k = "B" -> VeeParts(g, A, 1)
 
 \* identity coefficients
@@ -224,48 +224,48 @@ GAct(g, c, v) ==
 ---------------------------------------------------------------------------
 \* derived operations (the oracle)
 XCompose(g, c1, c2) == MMul(GMat(g, c1), GMat(g, c2))          \* as a matrix
-XInverse(g, c) == MInv(GMat(g, c))                               \* as a matrix
+XInverse(g, c) == MInvD(GMat(g, c))                              \* as a matrix
 XExp(g, a) == ExpM(GHat(g, a))                                   \* as a matrix
 
 \* Ad(g): column i = vee(M hat(e_i) M^-1)
 XAd(g, c) ==
-  LET M == GMat(g, c)  Mi == MInv(M)  n == Dof(g)
-  IN MFromCols([i \in 1..n |-> GVee(g, MMul(MMul(M, GHat(g, VUnit(n, i))), Mi))])
+  LET M == GMat(g, c)  Mi == MInvD(M)  n == Dof(g)
+  IN MFromCols(RForce([i \in 1..n |-> GVee(g, MMul(MMul(M, GHat(g, VUnit(n, i))), Mi))]))
 \* ad(a): column i = vee(hat(a) hat(e_i) - hat(e_i) hat(a))
 XBracketM(g, a, b) == LET A == GHat(g, a)  B == GHat(g, b) IN MSub(MMul(A, B), MMul(B, A))
 XBracket(g, a, b) == GVee(g, XBracketM(g, a, b))
 Xad(g, a) ==
-  LET n == Dof(g) IN MFromCols([i \in 1..n |-> XBracket(g, a, VUnit(n, i))])
+  LET n == Dof(g) IN MFromCols(RForce([i \in 1..n |-> XBracket(g, a, VUnit(n, i))]))
 
 \* right Jacobian of exp: sum_k (-1)^k ad(a)^k / (k+1)!
 XDrExp(g, a) == Phi1M(MNeg(Xad(g, a)))
-XDrExpInv(g, a) == MInv(XDrExp(g, a))
+XDrExpInv(g, a) == MInvD(XDrExp(g, a))
 \* Ad from a group matrix directly
 XAd_FromMatrix(g, M) ==
-  LET Mi == MInv(M)  n == Dof(g)
-  IN MFromCols([i \in 1..n |-> GVee(g, MMul(MMul(M, GHat(g, VUnit(n, i))), Mi))])
+  LET Mi == MInvD(M)  n == Dof(g)
+  IN MFromCols(RForce([i \in 1..n |-> GVee(g, MMul(MMul(M, GHat(g, VUnit(n, i))), Mi))]))
 XDlExp(g, a) == MMul(XAd_FromMatrix(g, XExp(g, a)), XDrExp(g, a))
-XDlExpInv(g, a) == MInv(XDlExp(g, a))
+XDlExpInv(g, a) == MInvD(XDlExp(g, a))
 
 \* Hessians in the documented horizontally stacked layout:
 \*   H is Dof x Dof^2; block i (columns (i-1)Dof+1 .. i Dof), entry (j, k) = d J(i, j) / d a_k
 \* dJ_k = D Phi1(-ad a)[-ad e_k]
 XDrExpDirs(g, a) ==
   LET n == Dof(g)  A == MNeg(Xad(g, a))
-  IN [k \in 1..n |-> DPhi1M(A, MNeg(Xad(g, VUnit(n, k))))]
+  IN RForce([k \in 1..n |-> DPhi1M(A, MNeg(Xad(g, VUnit(n, k))))])
 StackHess(n, dJ) ==   \* dJ[k][i][j] = d J(i,j) / d a_k
-  [j \in 1..n |-> [col \in 1..(n * n) |->
-     LET i == ((col - 1) \div n) + 1  k == ((col - 1) % n) + 1 IN dJ[k][i][j]]]
+  RForce([j \in 1..n |-> [col \in 1..(n * n) |->
+     LET i == ((col - 1) \div n) + 1  k == ((col - 1) % n) + 1 IN dJ[k][i][j]]])
 XD2rExp(g, a) == StackHess(Dof(g), XDrExpDirs(g, a))
 \* d(J^-1)_k = - J^-1 dJ_k J^-1
 XD2rExpInv(g, a) ==
   LET n == Dof(g)  Ji == XDrExpInv(g, a)  dJ == XDrExpDirs(g, a)
-  IN StackHess(n, [k \in 1..n |-> MNeg(MMul(MMul(Ji, dJ[k]), Ji))])
+  IN StackHess(n, RForce([k \in 1..n |-> MNeg(MMul(MMul(Ji, dJ[k]), Ji))]))
 
 \* right Jacobian of the action g*v with respect to g: column i = M hat(e_i) [v; 1...]
 XDrAction(g, c, v) ==
   LET M == GMat(g, c)  n == Dof(g)
       hv == CASE g.k \in {"SO2", "SO3", "C1"} -> v [] OTHER -> v \o <<R1>>
       rows == CASE g.k = "Gal" -> 4 [] OTHER -> Len(v)
-  IN MFromCols([i \in 1..n |-> VSeg(MVec(MMul(M, GHat(g, VUnit(n, i))), hv), 1, rows)])
+  IN MFromCols(RForce([i \in 1..n |-> VSeg(MVec(MMul(M, GHat(g, VUnit(n, i))), hv), 1, rows)]))
 =============================================================================
